@@ -28,6 +28,7 @@ package cache
 
 import (
 	"bytes"
+	"errors"
 	"sync"
 	"time"
 
@@ -54,6 +55,9 @@ const (
 
 // defaultHitForPassSeconds default hit for pass: 300 seconds
 const defaultHitForPassSeconds = 300
+
+// ErrInvalidStoreData the data from store is invalid
+var ErrInvalidStoreData = errors.New("data from store is invalid")
 
 type (
 	// waitResult the result of fetching which is delivered to the waiting requests
@@ -201,7 +205,41 @@ func (hc *httpCache) initFromStore() (err error) {
 	if err != nil {
 		return
 	}
-	return hc.FromBytes(data)
+	// 先恢复至临时的cache，数据完整且有效才使用，
+	// 避免store返回的数据异常时，cache处于只恢复了部分字段的状态
+	// （如状态为hit但无响应数据或无过期时间）
+	tmp := &httpCache{}
+	err = tmp.FromBytes(data)
+	if err != nil {
+		return
+	}
+	err = tmp.validate()
+	if err != nil {
+		return
+	}
+	hc.status = tmp.status
+	hc.response = tmp.response
+	hc.createdAt = tmp.createdAt
+	hc.expiredAt = tmp.expiredAt
+	return
+}
+
+// validate check the cache restored from store is usable: only hit and hit for pass are
+// saved to store, both with expired time, and hit should have a response
+func (hc *httpCache) validate() error {
+	switch hc.status {
+	case StatusHit:
+		if hc.response == nil || hc.response.StatusCode == 0 {
+			return ErrInvalidStoreData
+		}
+	case StatusHitForPass:
+	default:
+		return ErrInvalidStoreData
+	}
+	if hc.createdAt < 0 || hc.expiredAt <= 0 {
+		return ErrInvalidStoreData
+	}
+	return nil
 }
 
 // saveToStore save cache to store
